@@ -85,7 +85,7 @@ class Config:
                 'nest': getattr(self, 'nest', False), 'inv32': getattr(self, 'inv32', False),
                 'keepgrad': getattr(self, 'keepgrad', False), 'spike': getattr(self, 'spike', None),
                 'inv16': getattr(self, 'inv16', False), 'fac32': getattr(self, 'fac32', False),
-                'perturb_ctor': getattr(self, 'perturb_ctor', False),
+                'perturb_ctor': getattr(self, 'perturb_ctor', False), 'mixdt': getattr(self, 'mixdt', False),
                 'hyper_factors': [{k: str(v) for k, v in d_.items()} for d_ in (getattr(self, 'hyper_factors', None) or [])],
                 'hyper': {k: (str(v) if not isinstance(v, list) else [str(x) for x in v]) for k, v in self.hyper.items()},
                 'ops': list(self.ops), 'seed': self.seed, 'sched_seed': getattr(self, 'sched_seed', None),
@@ -187,6 +187,19 @@ def build_model(cfg):
         elif a[0] == 'flat':
             mods.append(torch.nn.Flatten())
             cfg._flat = a[1] * sh_ * sw_
+    if getattr(cfg, 'mixdt', False):
+        # layers of two dtypes (float32 first, float64 after a cast: what autocast produces with half types), so consecutive
+        # factors handed to the communicator differ in dtype; oracle-only configurations (the model has one factor dtype)
+        class Cast(torch.nn.Module):
+            def __init__(self, dt):
+                super().__init__()
+                self.dt = dt
+
+            def forward(self, x):
+                return x.to(self.dt)
+        net = torch.nn.Sequential(Cast(torch.float32), *mods[:2], Cast(DT), *mods[2:]).to(DT)
+        net[1].float()
+        return net
     if getattr(cfg, 'nest', False) and len(mods) >= 5:
         return torch.nn.Sequential(torch.nn.Sequential(*mods[:3]), *mods[3:]).to(DT)
     return torch.nn.Sequential(*mods).to(DT)
@@ -907,6 +920,22 @@ def oracle_trace(ctx, cfg, rr, key_prefix='trace'):
 
 
 # --------------------------------------------------------------------------- batch runner
+def io_at_step_boundaries(ops, accum=1):
+    """no state_dict / load_state_dict / memory_usage call between a training pass and the step that consumes it, and
+    no more training passes before a step than `accumulation_steps` announces"""
+    pending = 0
+    for o in ops:
+        if o in ('f1', 'F'):
+            pending += 1
+            if pending > accum:
+                return False
+        elif o == 's':
+            pending = 0
+        elif o[0] in 'mvlkRbB' and pending:
+            return False
+    return True
+
+
 def run_batch(ctx, cfgs, streams, oracles=(), tol=2e-3, seeds=None, whole_only_oracles=True):
     """cfgs: list of Config. Runs each on the real code, asks the model once, compares."""
     import ref_kfac
@@ -922,6 +951,10 @@ def run_batch(ctx, cfgs, streams, oracles=(), tol=2e-3, seeds=None, whole_only_o
         whole = ref_kfac.is_whole_iterations(cfg.ops, cfg.accum)
         for o in oracles:
             if whole or not whole_only_oracles:
+                o(ctx, cfg, rr)
+            elif o is oracle_trace and not rr.world.exceptions and io_at_step_boundaries(cfg.ops, cfg.accum):
+                # arbitrary histories may legitimately raise (misuse); with every checkpoint / memory call at a step
+                # boundary (the statement's scope) a stall or a mismatch with no error raised anywhere is a violation
                 o(ctx, cfg, rr)
         if 'F' in cfg.ops:
             ctx.count('oracle-only history (forward-only pass)')
@@ -962,6 +995,7 @@ def replay_case(ctx, payload, streams, oracles=()):
     cfg.fac32 = c.get('fac32', False)
     cfg.spike = tuple(c['spike']) if c.get('spike') else None
     cfg.perturb_ctor = c.get('perturb_ctor', False)
+    cfg.mixdt = c.get('mixdt', False)
     cfg.hyper_factors = [{k: Fraction(v) for k, v in d_.items()} for d_ in c.get('hyper_factors', [])] or None
     cfg.arch = [tuple(tuple(x) if isinstance(x, list) else x for x in a) for a in c['arch']]
     cfg.ops = list(c['ops'])
@@ -986,7 +1020,14 @@ def replay_case(ctx, payload, streams, oracles=()):
         for k_, v in ch.items():
             d[k_] = None if v is None else (int(v) if k_ in ('factor_update_steps', 'inv_update_steps') else Fraction(v))
         cfg.hyper_changes.append(d)
-    run_batch(ctx, [cfg], streams, oracles, seeds=[c.get('sched_seed', 0)], whole_only_oracles=False)
+    if cfg.mixdt:
+        # oracle-only configuration (no model line)
+        fix_loads(cfg)
+        cfg.sched_seed = c.get('sched_seed', 0)
+        rr = run_real(cfg, sched_seed=cfg.sched_seed, stickiness=[0.0, 0.5, 0.9][cfg.sched_seed % 3])
+        oracle_trace(ctx, cfg, rr, key_prefix='mixed-dtype-trace')
+    else:
+        run_batch(ctx, [cfg], streams, oracles, seeds=[c.get('sched_seed', 0)], whole_only_oracles=False)
     for f in ctx.failures[:5]:
         print('replay:', f['what'])
     for d in ctx.disagreements[:3]:
